@@ -1037,6 +1037,13 @@ func (g *gen) geomOfType(t string) *mgeom.Geom {
 	cfg := g.cfg
 	cfg.ClosedRings = g.r.Chance(0.7)
 	m := cfg.Gen(g.r, t, l, 0)
+	if t != mgeom.GC && t != mgeom.Pt && l <= 4 && g.r.Chance(0.006) {
+		// 1 100 ... 2 300 coordinates in two or three parts, ordinates that do
+		// not add exactly: where a blocked or parallel path would engage
+		big := cfg
+		big.FloatMode = 3
+		m = big.BigOfType(g.r, t, l, []int{1100, 2100, 2300}[g.r.Intn(3)])
+	}
 	if (t == mgeom.LS || t == mgeom.LR || t == mgeom.MPt) && g.r.Chance(0.3) {
 		// hull-relevant sizes
 		ps := g.pointSet(l)
@@ -1196,7 +1203,7 @@ func (prop) Generate(r *prng.Rand, phase string) any {
 	}
 	g := &gen{r: r, s: s}
 	g.cfg = mgeom.SwarmCfg(r, []int{1, 2, 3, 4})
-	g.cfg.FloatMode = []int{0, 0, 0, 2}[r.Intn(4)] // mostly small values; one run in four any finite value (formatting paths, overflow paths)
+	g.cfg.FloatMode = []int{0, 0, 0, 3}[r.Intn(4)] // mostly small values; one run in four moderate values of full precision (results that round). Not the extremes: upstream's hull does not terminate on ordinates near MaxFloat64, see DESIGN 9.1
 	g.cfg.Types = mgeom.AllTypes
 	g.cfg.ShareMembers = true
 	if g.cfg.MaxCoords > 8 && g.cfg.ExactCoords == 0 {
